@@ -110,7 +110,7 @@ def sched_blocks(impl):
     return blocks
 
 
-def run_solve(d, tag, inst, release=False, timeout=30, checks=True):
+def run_solve(d, tag, inst, release=False, timeout=30, checks=True, pipemodel=False):
     """Run the pipeline on one instance; returns dict(status, js, impl, perm, outchk, chk, eval)."""
     cpath = os.path.join(d, "%s.json" % tag)
     with open(cpath, "w") as f:
@@ -157,4 +157,58 @@ def run_solve(d, tag, inst, release=False, timeout=30, checks=True):
             res["chk"].append((p[1], dict(x.split("=") for x in p[2:])))
         elif p[0] in ("WIRE", "WIREJSON", "WIRESTART"):
             res["wire"][p[0]] = p[1]
+    if res["status"] == "OK" and pipemodel:
+        res["model_diff"] = pipeline_model_diff(d, tag, inst, res, impl)
     return res
+
+
+def pipeline_model_diff(d, tag, inst, res, impl):
+    """Replay of the whole run on the functional schedule model (PipelineSched.v, driver `pipemodel`): every stage
+    snapshot the hooks recorded must equal the model's state, and every accepted local-search step must be one of
+    the model's enumerated neighbours. Returns None or a description of the first difference."""
+    blocks = sched_blocks(impl)
+    labels = [l for (l, _) in blocks]
+    if not labels or labels[0] != "mcf":
+        return "no mcf snapshot recorded"
+    # decoded tours per type, in the order in which from_tours spawned them: types ordered by their first vehicle id
+    by_type, cur = {}, None
+    for l in impl:
+        p = l.split()
+        if p[0] == "MCFTYPE":
+            cur = int(p[1])
+            by_type.setdefault(cur, [])
+        elif p[0] == "FTOUR" and cur is not None:
+            by_type[cur].append(p[1:])
+    first_vid = {}
+    for l in blocks[0][1]:
+        p = l.split()
+        if p[0] == "V" and p[2] != "MISSING":
+            ty = int(p[2])
+            n = int(p[1].split("_")[1])
+            first_vid[ty] = min(first_vid.get(ty, n), n)
+    order = sorted(by_type, key=lambda t: first_vid.get(t, 10 ** 9))
+    tours = [(t, nodes) for t in order for nodes in by_type[t]]
+    toks = ["%d" % len(tours)] + ["%d %d %s" % (t, len(n), " ".join(n)) for (t, n) in tours]
+    for (_, blk) in blocks:
+        toks += blk
+    mpath = os.path.join(d, "%s.pipe" % tag)
+    with open(mpath, "w") as f:
+        f.write(" ".join(str(x) for x in instgen.encode(inst, res["perm"])) + "\n" + "\n".join(toks) + "\n")
+    mout = os.path.join(d, "%s.pipemodel" % tag)
+    st = lib.run_driver("pipemodel", mpath, mout, timeout=300)
+    if st != "OK":
+        return "driver: " + st[:200]
+    model = lib.read_lines(mout)
+    for l in model:
+        if "NOTFOUND" in l or "MODELFAIL" in l or "NEIGHPANIC" in l or "MISSING" in l.split()[-1:]:
+            return "model: " + l
+        if l.startswith("TRANSVALID") and l.split()[2] != "ok":
+            return "optimised transitions violate the bookkeeping invariant w.r.t. the search result: " + l
+    mblocks = sched_blocks(model)
+    if [l for (l, _) in mblocks] != labels:
+        return "stages differ: impl %s model %s" % (labels, [l for (l, _) in mblocks])
+    for (li, bi), (lm, bm) in zip(blocks, mblocks):
+        fd = lib.first_diff(bi, bm)
+        if fd:
+            return "stage %s line %d: impl=[%s] model=[%s]" % (li, fd[0], fd[1][:300], fd[2][:300])
+    return None
